@@ -221,10 +221,12 @@ def ReadMemChunks.collect (p : Profile) : Nat → ReadMemChunks → R (List Read
       let rest ← collect p fuel s'
       pure (c :: rest)
 
-/-- `ReadMem::maximum_read_length` -/
-def maximumReadLength (p : Profile) (maximumAckLen : Nat) : R Nat := do
-  let d ← subW p 64 maximumAckLen ACK_HEADER_LENGTH
-  pure (if d ≤ U16_MAX then d else U16_MAX)
+/-- `ReadMem::maximum_read_length`: `maximum_ack_len.saturating_sub(12).try_into().unwrap_or(u16::MAX)`
+(fix ac6a78c; before it the subtraction underflowed for budgets below the header).  Total, profile
+independent; the `Profile` argument is kept for the callers' signature. -/
+def maximumReadLength (_p : Profile) (maximumAckLen : Nat) : R Nat :=
+  let d := maximumAckLen - ACK_HEADER_LENGTH      -- Nat subtraction saturates at 0
+  .ok (if d ≤ U16_MAX then d else U16_MAX)
 
 structure WriteMemChunks where
   address : Nat
